@@ -228,7 +228,7 @@ def make(entry, a, data, alloc=None, coder=None):
         m.ret = c.init("lzma_index_decoder", C.byref(m.index_out), ML)
     elif entry == "file_info_decoder":
         m.index_out = C.c_void_p()
-        m.ret = c.init("lzma_file_info_decoder", C.byref(m.index_out), ML, len(data))
+        m.ret = c.init("lzma_file_info_decoder", C.byref(m.index_out), ML, a.get("file_size", len(data)))
     elif entry == "stream_encoder":
         m.ret = c.init("lzma_stream_encoder", filt(), a.get("check", lz.CHECK_CRC32))
     elif entry == "easy_encoder":
@@ -273,7 +273,7 @@ class Bufs:
         return self.ib.guards_ok() and self.ob.guards_ok() and self.ib.data() == self.data
 
 
-def drive(entry, m, bufs, ins, outs, irep=0, orep=0, rec=None, tail=0, xw=False, pause=0.0):
+def drive(entry, m, bufs, ins, outs, irep=0, orep=0, rec=None, tail=0, xw=False, pause=0.0, ok_bound=None):
     """Perform the calls of one plan.  ins: list of chunk sizes; ("S", k) = k starving calls (nothing new, no output
     space).  outs: list of grants.  After the lists: irep bytes per call (0 = all the rest) / orep bytes (0 = all).
     Returns dict(ret, op, tin, calls, problems)."""
@@ -295,6 +295,12 @@ def drive(entry, m, bufs, ins, outs, irep=0, orep=0, rec=None, tail=0, xw=False,
     final = None         # (ret, total_in, op) at the terminal call; the starving tail calls come after it
     extra = 0
     seeks = 0
+    # Starve!StallBounded: consecutive calls that return LZMA_OK without touching either buffer, whatever the caller
+    # offered (also with input AND output space available: a coder stopped by an internal limit).  lzma_code() turns the
+    # second one into LZMA_BUF_ERROR; only a threaded coder waiting with a timeout may legitimately repeat LZMA_OK.
+    ok_stall = 0
+    if ok_bound is None:
+        ok_bound = 2 if entry not in STARVE_BOUND else 8
     notif_stall = 0
     notes = []           # informational return codes (LZMA_NO_CHECK / UNSUPPORTED_CHECK / GET_CHECK) and where they came
     while True:
@@ -366,6 +372,10 @@ def drive(entry, m, bufs, ins, outs, irep=0, orep=0, rec=None, tail=0, xw=False,
             starve_told = True
         if uin or uout:
             notif_stall = 0
+        ok_stall = ok_stall + 1 if (ret == lz.OK and uin == 0 and uout == 0) else 0
+        if ok_stall >= ok_bound and not terminal:
+            problems.append("starve")
+            break
         if ret == lz.OK:
             if calls > limit:
                 problems.append("hang")
@@ -493,7 +503,8 @@ def run_subject(sub, budget):
             return dict(ret="INIT_" + lz.retname(m.ret), tin=0, olen=0, dig=dig(b"")), []
         bufs = Bufs(m.data, cap if cap is not None else (sub.get("cap") or max(4096, 12 * len(m.data) + 4096)))
         ins, outs, irep, orep = expand_plan(plan, bufs.n, one["olen"] if one else 0)
-        r = drive(entry, m, bufs, ins, outs, irep, orep, rec, tail, xw=bool(plan.get("xw")), pause=plan.get("pause", 0.0))
+        r = drive(entry, m, bufs, ins, outs, irep, orep, rec, tail, xw=bool(plan.get("xw")), pause=plan.get("pause", 0.0),
+                  ok_bound=400 if (entry in STARVE_BOUND and args.get("timeout")) else None)
         o = observe(m, bufs, r)
         probs = list(r["problems"])
         if not bufs.intact():
